@@ -113,6 +113,61 @@ def _standin(rep, tier, seed, only_search=False):
             rep.violation("bounds (%r, %r) do not bracket the true distance %r" % (lb, ub, true), "mgh:bracket:" + ("lower" if lb > true else "upper"), {"input": {"A": A.tolist(), "B": B.tolist()}, "observed": [lb, ub], "expected": true})
             if only_search:
                 return
+    # structured shapes up to 7 (thorough: 8) vertices - spiders, brooms, cycles with pendant leaves: diameter >= 3 and many equidistant
+    # points, where the lower bound is tightened through bounded curvatures (Theorems A / B); exact distance by branch and bound
+    from standins.mgh_oracle import mgh_bb, structured_shapes
+    shapes = structured_shapes(7 if tier == "quick" else 8)
+    names = sorted(shapes)
+    spairs = [(a, b) for a in names for b in names]
+    if tier == "quick":
+        spairs = rng.sample(spairs, 260)
+    for a, b in spairs:
+        true = mgh_bb(shapes[a], shapes[b])
+        lb, ub = _gh(shapes[a], shapes[b], None, rng.randint(0, 10 ** 6))
+        evals += 1
+        distinct.add(("shape", a, b))
+        if not (lb <= true + 1e-12 <= ub + 2e-12):
+            rep.violation("bounds (%r, %r) of gromov_hausdorff(%s, %s) do not bracket the true distance %r" % (lb, ub, a, b, true), "mgh:bracket:" + ("lower" if lb > true else "upper"),
+                          {"input": {"A": shapes[a].tolist(), "B": shapes[b].tolist(), "shapes": [a, b]}, "observed": [lb, ub], "expected": true})
+            if only_search:
+                return
+            break
+    # sizes around the limits of the integer types the code stores distances and counts in (127/128, 255/256 vertices), small and
+    # large diameters: the estimates must exist (no exception), be multiples of 1/2 with lower <= upper,
+    # and a relabelled copy must get lower bound 0
+    def caterpillar(nv, spine):
+        M = np.zeros((nv, nv), dtype=int)
+        for i in range(spine):
+            M[i, i + 1] = M[i + 1, i] = 1
+        for v in range(spine + 1, nv):
+            M[v % (spine + 1), v] = M[v, v % (spine + 1)] = 1
+        return M
+    big = [(126, 5), (127, 3), (128, 4), (129, 6), (130, 5)] + ([(255, 4), (256, 5), (258, 7), (200, 150), (140, 130)] if tier != "quick" else [(140, 130)])
+    for nv, spine in big:
+        A = caterpillar(nv, spine)
+        perm = list(range(nv))
+        rng.shuffle(perm)
+        for B, iso in ((caterpillar(nv - 1, max(2, spine - 1)), False), (relabel(A, perm), True)):
+            evals += 1
+            distinct.add(("big", nv, spine, iso))
+            try:
+                with warnings.catch_warnings():
+                    warnings.simplefilter("ignore")
+                    np.random.seed(rng.randint(0, 10 ** 6))
+                    from persim import gromov_hausdorff as _ghf
+                    lb, ub = _ghf(A, B)
+            except Exception as ex:
+                rep.violation("gromov_hausdorff raised %r on connected graphs with %d / %d vertices (caterpillars, spine %d)" % (ex, nv, len(B), spine), "mgh:large-graph-exception",
+                              {"input": {"generator": "caterpillar", "n": nv, "spine": spine, "isomorphic_copy": iso}, "observed": repr(ex), "call": "persim.gromov_hausdorff(caterpillar(n, spine), ...)"})
+                if only_search:
+                    return
+                break
+            if not (0 <= lb <= ub and float(2 * lb).is_integer() and float(2 * ub).is_integer()) or (iso and lb != 0):
+                rep.violation("bounds (%r, %r) on graphs with %d / %d vertices are not a valid bracket%s" % (lb, ub, nv, len(B), " of distance 0 (relabelled copy)" if iso else ""), "mgh:large-graph-bracket",
+                              {"input": {"generator": "caterpillar", "n": nv, "spine": spine, "isomorphic_copy": iso}, "observed": [lb, ub]})
+                if only_search:
+                    return
+                break
     # larger sparse graphs (exact distance out of reach): a valid bracket at least needs lower <= upper
     for _ in range(150 if tier == "quick" else 4000):
         A, B = _rand_graph(rng, rng.randint(4, 9), p=rng.choice([0.25, 0.35, 0.5])), _rand_graph(rng, rng.randint(3, 8), p=rng.choice([0.25, 0.35, 0.5]))
@@ -156,7 +211,7 @@ def _standin(rep, tier, seed, only_search=False):
         if not ok:
             rep.violation("find_largest_size_bounded_curvature did not return a d-bounded principal submatrix", "mgh:curvature", {"input": {"DX": DX.tolist(), "d": d}, "observed": K.tolist()})
     if not only_search:
-        rep.bounded("mGH brackets vs exact distance", "%d pairs of connected labelled graphs on <=4 vertices (all maps enumerated), 5-vertex pairs, relabelings of 3..7-vertex graphs, 3 sampling orders, random NumPy seeds" % len(pairs),
+        rep.bounded("mGH brackets vs exact distance", "%d pairs of connected labelled graphs on <=4 vertices (all maps enumerated), 5-vertex pairs, pairs of structured shapes (spiders, brooms, cycles with leaves) up to 7/8 vertices vs branch-and-bound, relabelings of 3..7-vertex graphs, 3 sampling orders, random NumPy seeds" % len(pairs),
                     evals, len(distinct), "lower <= exact mGH <= upper, multiples of 1/2, isomorphic => lower bound 0; check_assignment_feasibility pure and equal to brute force; bounded curvature is a d-bounded principal submatrix", samples)
 
 
@@ -185,9 +240,15 @@ def run(rep, tier, seed):
     from contracts.c05_mgh import all_contracts
     cs, table = all_contracts(tier)
     run_contracts(rep, cs, table, tier=tier, pid="C05", replayers=[(r"gromov_hausdorff", _replay_search)])
+    # the confirmation step of the lower bound: logical structure of the row test (hypothesis of Theorem B) and of its caller (Theorem A or B)
+    from contracts.c05_mgh import lb_confirm_contracts
+    for cs2, t2 in lb_confirm_contracts(tier):
+        run_contracts(rep, cs2, t2, tier=tier, pid="C05", replayers=[(r"gromov_hausdorff", _replay_search)])
     rep.assume("L12 the distortion of any total map bounds inf dis from above; L13 trivial lower bound from diameters and cardinalities (precondition of find_lb's contract)",
-               "L14 Theorems A / B of Oles et al. 2019 and the correctness of confirm_lb_using_bounded_curvature / check_assignment_feasibility / find_unique_max_distributions / find_largest_size_bounded_curvature "
-               "(assumed contract: a confirmation of d entails 2 mGH >= d) - exercised by the bounded stand-in only",
+               "L14 Theorems A / B of Oles et al. 2019 (assumed): for a d-bounded curvature K of X with more points than Y, or with a row whose distance distribution admits no bottleneck assignment "
+               "within d against the distribution of ANY row of DY, 2 mGH >= d.  The logical structure of confirm_lb_using_bounded_curvature(_row) - exists row of K, for all rows of DY, not feasible - is proved; "
+               "the helpers represent_distance_matrix_rows_as_distributions / find_unique_max_distributions / find_largest_size_bounded_curvature and the VALUE of check_assignment_feasibility "
+               "(assumed contracts: one distribution per row; a sub-collection of the rows; a d-bounded principal submatrix; feasibility of the bottleneck assignment) are exercised by the bounded stand-in only",
                "D11 np.random.permutation returns a permutation, np.random.choice a vertex, whatever the generator state; D23 np.max / argmin",
                "lower-bound soundness is NOT proved beyond the enumerated sizes")
     _standin(rep, tier, seed)
@@ -195,6 +256,23 @@ def run(rep, tier, seed):
 
 def replay(doc):
     inp = doc["payload"].get("input", {})
+    if inp.get("generator") == "caterpillar":
+        nv, spine = inp["n"], inp["spine"]
+        M = np.zeros((nv, nv), dtype=int)
+        for i in range(spine):
+            M[i, i + 1] = M[i + 1, i] = 1
+        for v in range(spine + 1, nv):
+            M[v % (spine + 1), v] = M[v, v % (spine + 1)] = 1
+        try:
+            with warnings.catch_warnings():
+                warnings.simplefilter("ignore")
+                r = _gh(M, M[:-1, :-1] if not inp.get("isomorphic_copy") else M, None, 0)
+            ok = 0 <= r[0] <= r[1]
+            print("replay C05: caterpillar(%d, %d): bounds %r: %s" % (nv, spine, r, "HOLDS" if ok else "VIOLATED"))
+            return 0 if ok else 1
+        except Exception as ex:
+            print("replay C05: caterpillar(%d, %d): raised %r: VIOLATED" % (nv, spine, ex))
+            return 1
     if "A" in inp and "B" in inp:
         from standins.mgh_oracle import mgh
         lb, ub = _gh(inp["A"], inp["B"], inp.get("mapping_sample_size_order"), inp.get("numpy_seed"))
